@@ -199,10 +199,18 @@ class ErrOps(FloatOps):
 
     def min(self, a, b):
         a, b = EF.lift(a), EF.lift(b)
+        if a.v + a.e < b.v - b.e:
+            return a
+        if b.v + b.e < a.v - a.e:
+            return b
         return EF(min(a.v, b.v), max(a.e, b.e))
 
     def max(self, a, b):
         a, b = EF.lift(a), EF.lift(b)
+        if a.v - a.e > b.v + b.e:
+            return a
+        if b.v - b.e > a.v + a.e:
+            return b
         return EF(max(a.v, b.v), max(a.e, b.e))
 
     def ne(self, a, b):
